@@ -4,7 +4,8 @@ from vlib import core
 
 PROP = 'C10'
 MODULES = ['PistacheModel.Props.C10']
-THEOREMS = ['Pistache.Router.Props.' + t for t in ()]
+THEOREMS = ['Pistache.Router.Props.' + t for t in (
+    'leafFind_sound', 'findRoute_sound', 'findRoute_complete', 'fixed_wins', 'param_wins', 'own_route_wins', 'remove_only_that')]
 
 ALPHA = ['a', 'b', ':x', ':y', ':x?', ':y?', '*']
 PSEG = ['a', 'b', 'c']
